@@ -24,6 +24,7 @@ WINDS = {
     'head': [(10.0, 180.0, None)],
     'tail': [(10.0, 0.0, None)],
     'left': [(10.0, 90.0, None)],
+    'tail30': [(30.0, 0.0, None)],       # strong tail wind: the ground advance per step exceeds the air-relative step
     'two': [(8.0, 90.0, 200.0), (12.0, 270.0, 500.0)],     # (mph, from degrees, until feet)
     'two_unsorted': [(12.0, 270.0, 500.0), (8.0, 90.0, 200.0)],
     'head_then_tail': [(20.0, 180.0, 300.0), (20.0, 0.0, None)],     # segment boundary short of typical zero distances
